@@ -18,7 +18,7 @@ def sh(cmd, **kw):
 
 
 def one(pid, spec, variant, work, seed, tier):
-    d = os.path.join(work, '%s_%s_%s' % (pid, spec['engine'], variant or 'd'))
+    d = os.path.join(work, '%s_%s_%s_%s' % (pid, spec['engine'], os.path.splitext(spec['harness'])[0], variant or 'd'))
     os.makedirs(d)
     flags = ['-std=c++11', '-O0', '-g', '--coverage', '-w', '-DN2K_VERIF_HOOKS=1'] + (T32 if variant == 't32' else []) + spec.get('cxxflags', [])
     flags = [f for f in flags if 'sanitize' not in f]
